@@ -3,11 +3,15 @@ use serde_json::Value;
 
 pub mod c05;
 pub mod c05b;
+pub mod c06;
+pub mod c07;
 pub mod c12;
 pub mod c13;
 pub mod c14;
 pub mod c15;
+pub mod c20;
 pub mod cfgcheck;
+pub mod valspace;
 pub mod c16;
 
 pub struct Entry {
@@ -19,11 +23,14 @@ pub struct Entry {
 pub fn lookup(id: &str) -> Option<Entry> {
     Some(match id {
         "C05" => Entry { level: "model_checking", run: c05::run, replay: c05::replay },
+        "C06" => Entry { level: "exploration", run: c06::run, replay: c06::replay },
+        "C07" => Entry { level: "exploration", run: c07::run, replay: c07::replay },
         "C12" => Entry { level: "exploration", run: c12::run, replay: c12::replay },
         "C13" => Entry { level: "model_checking", run: c13::run, replay: c13::replay },
         "C14" => Entry { level: "model_checking", run: c14::run, replay: c14::replay },
         "C15" => Entry { level: "exploration", run: c15::run, replay: c15::replay },
         "C16" => Entry { level: "exploration", run: c16::run, replay: c16::replay },
+        "C20" => Entry { level: "model_checking", run: c20::run, replay: c20::replay },
         _ => return None,
     })
 }
